@@ -20,7 +20,7 @@ EXPLANATION = (
     'instructions present; registers, mnemonics and macro names not keywords - compared in lower case; macro names not '
     'instruction names; referenced operand sets exist; operand count equals the number of sets; register operands name a '
     'declared register; numeric ranges not inverted; zones inside the address space and not inverted; origin not below a '
-    'redefined GLOBAL; unknown operand type / bytecode position rejected); C19.2 every ordering comparison on a version '
+    'redefined GLOBAL; unknown operand type / bytecode position rejected), every function holding such a guard is reached by explicit calls from the model constructor and every declared operand set is built there, used or not; C19.2 every ordering comparison on a version '
     'string has both operands produced directly by packaging.version.parse; C19.3 #require: operator table, language name '
     'mismatch rejected on every matched #require line, model version compared with the required one in that order; C19.4 '
     'the ISA version string is validated against the semantic version pattern. Not decided: completeness (well-formed '
